@@ -18,7 +18,63 @@ static float half_value(void) {
   return (float)(h & 0x8000 ? -v : v);
 }
 
+/* the other public way of making scalars: cbor_new_* followed by cbor_set_* / cbor_mark_* (also: setting twice, marking back and forth) */
+static cbor_item_t* leaf_by_setters(void) {
+  uint64_t v = bval();
+  int k = (int)vh_randn(12);
+  cbor_item_t* it = NULL;
+  switch (k) {
+    case 0: case 1: case 2: case 3: case 4: case 5: case 6: case 7: {
+      int w = k & 3, neg = k >> 2;
+      it = w == 0 ? cbor_new_int8() : w == 1 ? cbor_new_int16() : w == 2 ? cbor_new_int32() : cbor_new_int64();
+      if (!it) return NULL;
+      if (vh_randn(3) == 0) { if (neg) cbor_mark_uint(it); else cbor_mark_negint(it); } /* the wrong mark first, corrected below */
+      if (vh_randn(2)) { if (w == 0) cbor_set_uint8(it, 0x5a); else if (w == 1) cbor_set_uint16(it, 0x5a5a); else if (w == 2) cbor_set_uint32(it, 0x5a5a5a5au); else cbor_set_uint64(it, ~0ull); }
+      if (w == 0) cbor_set_uint8(it, (uint8_t)v); else if (w == 1) cbor_set_uint16(it, (uint16_t)v); else if (w == 2) cbor_set_uint32(it, (uint32_t)v); else cbor_set_uint64(it, v);
+      if (neg) cbor_mark_negint(it); else cbor_mark_uint(it);
+      return it;
+    }
+    case 8: {
+      it = cbor_new_ctrl();
+      if (!it) return NULL;
+      cbor_set_ctrl(it, (uint8_t)(20 + vh_randn(4)));
+      if (cbor_is_bool(it) && vh_randn(2)) cbor_set_bool(it, vh_randn(2)); /* cbor_set_bool is for items that already are booleans */
+      return it;
+    }
+    case 9: {
+      it = cbor_new_float2();
+      if (!it) return NULL;
+      if (vh_randn(2)) cbor_set_float2(it, 1.0f);
+      cbor_set_float2(it, half_value());
+      return it;
+    }
+    case 10: {
+      uint32_t u = (uint32_t)vh_rand();
+      if (!vh_randn(4)) u |= 0x7f800000u;
+      float f;
+      memcpy(&f, &u, 4);
+      it = cbor_new_float4();
+      if (!it) return NULL;
+      if (vh_randn(2)) cbor_set_float4(it, -0.0f);
+      cbor_set_float4(it, f);
+      return it;
+    }
+    default: {
+      uint64_t u = vh_rand();
+      if (!vh_randn(4)) u |= 0x7ff0000000000000ull;
+      double d;
+      memcpy(&d, &u, 8);
+      it = cbor_new_float8();
+      if (!it) return NULL;
+      if (vh_randn(2)) cbor_set_float8(it, 1e300);
+      cbor_set_float8(it, d);
+      return it;
+    }
+  }
+}
+
 static cbor_item_t* leaf(void) {
+  if (vh_randn(4) == 0) return leaf_by_setters();
   uint64_t v = bval();
   switch (vh_randn(16)) {
     case 0: return cbor_build_uint8((uint8_t)v);
